@@ -261,19 +261,28 @@ def run_impl(mode, casefile, env=None, timeout=900):
             rc = p.wait(timeout=timeout)
         except subprocess.TimeoutExpired:
             rc = -9
-        left = 0
-        try:
-            for d in os.listdir('/proc'):
-                if d.isdigit() and int(d) != p.pid:
-                    try:
-                        st = open('/proc/%s/stat' % d).read()
-                        f = st[st.rindex(')') + 2:].split()
-                        if int(f[2]) == p.pid and f[0] != 'Z':          # pgrp
-                            left += 1
-                    except (OSError, ValueError, IndexError):
-                        pass
-        except OSError:
-            pass
+        def session_members():
+            n = 0
+            try:
+                for d in os.listdir('/proc'):
+                    if d.isdigit() and int(d) != p.pid:
+                        try:
+                            st = open('/proc/%s/stat' % d).read()
+                            f = st[st.rindex(')') + 2:].split()
+                            if int(f[2]) == p.pid and f[0] != 'Z':          # pgrp
+                                n += 1
+                        except (OSError, ValueError, IndexError):
+                            pass
+            except OSError:
+                pass
+            return n
+        # a cancelled build script is killed as a shell: a `sleep` it had started may outlive it for a few milliseconds (the
+        # scripts of the harness modes sleep 120 ms at most); only what is still there after a second counts
+        left = session_members()
+        t_left = time.time()
+        while left and time.time() - t_left < 1.0:
+            time.sleep(0.05)
+            left = session_members()
         LEFTOVER[casefile] = left
         try:
             os.killpg(p.pid, _s.SIGKILL)
